@@ -316,91 +316,3 @@ func TestC13_FieldL(t *testing.T) {
 	}
 	rep.Exhaustive(T)
 }
-
-// ---- hash_to_field.New(dst) as a hash.Hash ------------------------------------------------------
-
-type hashHash interface {
-	Write(p []byte) (int, error)
-	Sum(b []byte) []byte
-	Reset()
-	Size() int
-	BlockSize() int
-}
-
-func wrapperPkg(f inst.Field) *reg.Pkg { return reg.Get("ecc/" + f.Name() + "/hash_to_field") }
-
-// propWrapper: a random history of Write / Sum / Reset against the model "Sum(b) = b || BE(Hash(all
-// bytes written since the last Reset, dst, 1)[0])".
-func propWrapper(t *rapid.T, f inst.Field) {
-	T := "C13_HashWrapper/" + f.Name()
-	p := wrapperPkg(f)
-	n := rapid.SampledFrom([]int{0, 1, 16, 43, 254, 255}).Draw(t, "dstLen")
-	dst := rapid.SliceOfN(rapid.Byte(), n, n).Draw(t, "dst")
-	orig := append([]byte{}, dst...)
-	h := p.F("New", dst)[0].(hashHash)
-	// "copy in case the argument is modified"
-	for i := range dst {
-		dst[i] ^= 0xff
-	}
-	dst = orig
-	var model []byte
-	steps := rapid.IntRange(1, 8).Draw(t, "steps")
-	key := fmt.Sprintf("%s dst=%x", f.Name(), dst)
-	sums, resets := 0, 0
-	for i := 0; i < steps; i++ {
-		switch rapid.IntRange(0, 3).Draw(t, "op") {
-		case 0, 1:
-			c := rapid.SliceOfN(rapid.Byte(), 0, 70).Draw(t, "chunk")
-			k, err := h.Write(c)
-			if k != len(c) || err != nil {
-				t.Fatalf("%s: Write(%d bytes) = %d, %v", f.Name(), len(c), k, err)
-			}
-			model = append(model, c...)
-			key += fmt.Sprintf(" W%x", c)
-		case 2:
-			h.Reset()
-			model = nil
-			resets++
-			key += " R"
-		case 3:
-			pre := rapid.SliceOfN(rapid.Byte(), 0, 5).Draw(t, "prefix")
-			want, _ := ref.HashToField(model, dst, f.Q(), 1, 1)
-			wb := want[0][0].FillBytes(make([]byte, f.Bytes()))
-			got := h.Sum(append([]byte{}, pre...))
-			if !bytes.Equal(got, append(append([]byte{}, pre...), wb...)) {
-				t.Fatalf("%s: Sum(%x) after writing %x = %x, want %x||%x", f.Name(), pre, model, got, pre, wb)
-			}
-			if h.Size() != len(wb) {
-				t.Fatalf("%s: Size() = %d but Sum appends %d bytes", f.Name(), h.Size(), len(wb))
-			}
-			sums++
-			key += fmt.Sprintf(" S%x", pre)
-		}
-	}
-	want, _ := ref.HashToField(model, dst, f.Q(), 1, 1)
-	if got := h.Sum(nil); !bytes.Equal(got, want[0][0].FillBytes(make([]byte, f.Bytes()))) {
-		t.Fatalf("%s: final Sum(nil) after %s = %x, want %s", f.Name(), key, got, want[0][0].Text(16))
-	}
-	cls := []string{fmt.Sprintf("dst_len:%d", n)}
-	if sums > 0 {
-		cls = append(cls, "sum_then_continue")
-	}
-	if resets > 0 {
-		cls = append(cls, "reset")
-	}
-	if len(model) == 0 {
-		cls = append(cls, "empty_message")
-	}
-	rep.Case(T, key, n == 0 || n == 255 || sums > 0 || resets > 0 || len(model) == 0, cls...)
-}
-
-func TestC13_HashWrapper(t *testing.T) {
-	have := 0
-	forFields(t, func(t *testing.T, f inst.Field) {
-		if p := wrapperPkg(f); p == nil || !p.Has("New") {
-			t.Skip("no hash_to_field package")
-		}
-		have++
-		rapid.Check(t, func(t *rapid.T) { propWrapper(t, f) })
-	})
-}
